@@ -38,7 +38,12 @@ def instance(I, q_id, qd_id, nq, nv):
   act.f['force_range'] = symarr('fr', (nu, 2))
   act.f['q_id'] = np.array(q_id, dtype=int)
   act.f['qd_id'] = np.array(qd_id, dtype=int)
-  sysd = Struct('System', {'actuator': act, 'nu': nu, 'nv': nv, 'nq': nq})
+  # the mjx.Model fields a System inherits and an actuator routine may consult: every actuated joint is a hinge here (the
+  # force law is the same for hinge and slide joints: length = gear * q with the RAW coordinate, as MuJoCo computes it)
+  sysd = Struct('System', {'actuator': act, 'nu': nu, 'nv': nv, 'nq': nq, 'njnt': nv,
+                           'jnt_type': np.array([3] * max(nv, 1), dtype=int),
+                           'actuator_trnid': np.stack([np.array(qd_id, dtype=int), np.full(nu, -1)], axis=1) if nu else np.zeros((0, 2), dtype=int),
+                           'actuator_trntype': np.zeros(nu, dtype=int)})
   ctrl, q, qd = symarr('u', (nu,)), symarr('q', (nq,)), symarr('qd', (nv,))
   tau = I.apply(fn(MOD, 'to_tau'), [sysd, ctrl, q, qd], {})
   A = act.f
